@@ -264,7 +264,7 @@ pub fn record_toml(out_path: &str, count: u64) {
                         "repeated-key"
                     }
                     6 if from != "toml" => {
-                        v = rng.pick(&[V::Seq(vec![v.clone()]), V::Int(7), V::Str("text".into()), V::Bool(false), V::F64(1.5)]).clone();
+                        v = rng.pick(&[V::Seq(vec![v.clone()]), V::Int(7), V::Str("text".into()), V::Bool(false), V::F64(1.5), V::Null, V::Null]).clone();
                         "root"
                     }
                     _ => continue,
@@ -321,6 +321,10 @@ pub fn record_hops(out_path: &str, count: u64) {
             (V::Map(vec![(V::Str("first".into()), V::Int(1)), (V::Str("notes".into()), V::Str("line\n\n\n".into()))]), "common4")
         } else if i == 7 {
             (V::Seq(vec![V::Int(1), V::Seq(vec![V::Str("x\n\n".into())])]), "common3")
+        } else if i == 8 || i == 9 {
+            // nesting of 40 and 64 levels (the property's depth range), integers at both ends of the 64-bit ranges
+            let leaf = V::Seq(vec![V::Int(i128::from(u64::MAX)), V::Int(i128::from(i64::MIN)), V::Int(i128::from(i64::MAX) + 1)]);
+            (val::gen_deep(if i == 8 { 40 } else { 63 }, (i % 3) as u64, leaf), "common3")
         } else if i < 4 {
             (witness, "common4")    // pinned witness of the recorded finding toml_nested_three_groups, from each start format
         } else if a == "toml" || i % 3 == 1 {
